@@ -21,7 +21,8 @@ EXTENDS YQuery
 (* ---- table <-> tree ---- *)
 RECURSIVE TreeOf(_, _)
 TreeOf(d, i) == [k |-> d[i].k, t |-> d[i].t, v |-> d[i].v, anchor |-> d[i].anchor, isalias |-> d[i].alias # 0,
-                 keys |-> d[i].keys, kids |-> [j \in 1..Len(d[i].kids) |-> TreeOf(d, d[i].kids[j])]]
+                 keys |-> d[i].keys, kanch |-> KA(d[i]), kids |-> [j \in 1..Len(d[i].kids) |-> TreeOf(d, d[i].kids[j])]]
+KAT(tr) == IF "kanch" \in DOMAIN tr THEN tr.kanch ELSE <<>>
 RECURSIVE SumTo(_, _)
 SumTo(sizes, n) == IF n = 0 THEN 0 ELSE sizes[n] + SumTo(sizes, n - 1)
 RECURSIVE TSize(_)
@@ -30,8 +31,9 @@ RECURSIVE TabAt(_, _, _)
 TabAt(tr, par, me) ==    \* node table of tree tr whose root gets id `me`
   LET sizes == [j \in 1..Len(tr.kids) |-> TSize(tr.kids[j])]
       kid(j) == me + 1 + SumTo(sizes, j - 1)
-  IN <<[k |-> tr.k, t |-> tr.t, v |-> tr.v, kids |-> [j \in 1..Len(tr.kids) |-> kid(j)], keys |-> tr.keys,
-        par |-> par, anchor |-> tr.anchor, alias |-> IF tr.isalias THEN 1 ELSE 0]>>
+      base == [k |-> tr.k, t |-> tr.t, v |-> tr.v, kids |-> [j \in 1..Len(tr.kids) |-> kid(j)], keys |-> tr.keys,
+               par |-> par, anchor |-> tr.anchor, alias |-> IF tr.isalias THEN 1 ELSE 0]
+  IN <<IF \E j \in 1..Len(KAT(tr)) : KAT(tr)[j] # "" THEN base @@ [kanch |-> KAT(tr)] ELSE base>>
      \o Flatten([j \in 1..Len(tr.kids) |-> TabAt(tr.kids[j], me, kid(j))])
 \* alias links: the first position (in document order) carrying an anchor name is its definition
 NormAliases(d) ==
@@ -45,8 +47,17 @@ TabOf(tr) == NormAliases(TabAt(tr, 0, 1))
 AliasGroup(d, i) == LET def == IF d[i].alias # 0 THEN d[i].alias ELSE i IN
                     {def} \cup {j \in 1..Len(d) : d[j].alias = def}
 Closure(d, S) == UNION {AliasGroup(d, i) : i \in S}
-SetScalarsRaw(d, S, t, v) == LET C == Closure(d, S) IN
-  [i \in 1..Len(d) |-> IF i \in C THEN [d[i] EXCEPT !.t = t, !.v = v] ELSE d[i]]
+\* a key that is an Alias of a changed Anchor is the same object as the anchored scalar: it is renamed where it stands
+\* (processor.py _update_node.recurse, CommentedMap branch)
+SetScalarsRaw(d, S, t, v) == LET C == Closure(d, S) names == {d[x].anchor : x \in C} \ {""} IN
+  [i \in 1..Len(d) |->
+     IF i \in C THEN [d[i] EXCEPT !.t = t, !.v = v]
+     ELSE IF d[i].k = "map" /\ (\E j \in 1..Len(d[i].keys) : KAOf(d[i], j) \in names)
+          THEN [d[i] EXCEPT !.keys = [j \in 1..Len(d[i].keys) |-> IF KAOf(d[i], j) \in names THEN [t |-> t, v |-> v] ELSE d[i].keys[j]]]
+     ELSE d[i]]
+HasAliasedKeys(d) == \E i \in 1..Len(d) : \E j \in 1..Len(KA(d[i])) : KA(d[i])[j] # ""
+\* a renamed key that now equals another key of the same Hash: what ruamel's insert does then is not documented
+KeyClash(d) == \E i \in 1..Len(d) : d[i].k = "map" /\ \E a, b \in 1..Len(d[i].keys) : a # b /\ d[i].keys[a] = d[i].keys[b]
 \* members of a Set that became equal collapse into one (a Set holds distinct members)
 RECURSIVE DedupMembers(_)
 DedupMembers(kids) == IF Len(kids) = 0 THEN <<>> ELSE
@@ -65,6 +76,7 @@ RECURSIVE TreeWithout(_, _, _)
 TreeWithout(d, i, S) ==
   LET keep == SelectSeq([j \in 1..Len(d[i].kids) |-> j], LAMBDA j : d[i].kids[j] \notin S) IN
   [TreeOf(d, i) EXCEPT !.keys = IF d[i].k = "map" THEN [x \in 1..Len(keep) |-> d[i].keys[keep[x]]] ELSE <<>>,
+                       !.kanch = IF d[i].k = "map" /\ Len(KA(d[i])) > 0 THEN [x \in 1..Len(keep) |-> KAOf(d[i], keep[x])] ELSE <<>>,
                        !.kids = [x \in 1..Len(keep) |-> TreeWithout(d, d[i].kids[keep[x]], S)]]
 DeleteNodes(d, S) == TabOf(TreeWithout(d, Root, S))
 
@@ -93,7 +105,8 @@ BuildTail(rest, t, v) == BuildTailT(rest, NewScalar(t, v))
 
 RECURSIVE TreeWithChild(_, _, _, _, _)
 TreeWithChild(d, i, at, keyrec, newkids) ==   \* the tree of d with newkids appended under position `at`
-  IF i = at THEN [TreeOf(d, i) EXCEPT !.keys = IF d[i].k = "map" THEN @ \o <<keyrec>> ELSE @, !.kids = @ \o newkids]
+  IF i = at THEN [TreeOf(d, i) EXCEPT !.keys = IF d[i].k = "map" THEN @ \o <<keyrec>> ELSE @, !.kids = @ \o newkids,
+                                       !.kanch = IF d[i].k = "map" /\ Len(@) > 0 THEN @ \o <<"">> ELSE @]
   ELSE [TreeOf(d, i) EXCEPT !.kids = [j \in 1..Len(d[i].kids) |-> TreeWithChild(d, d[i].kids[j], at, keyrec, newkids)]]
 
 RECURSIVE TreeReplace(_, _, _, _)
@@ -177,7 +190,11 @@ AliasStep(d, e) ==
     ELSE LET used == AnchorNamesOf(d)
              name == IF e.name # "" THEN e.name ELSE IF d[a].anchor # "" THEN d[a].anchor ELSE GenAnchorName(d, a, used)
              grp == AliasGroup(d, a)
-             d1 == [i \in 1..Len(d) |-> IF i \in grp THEN [d[i] EXCEPT !.anchor = name] ELSE d[i]]
+             oldn == {d[i].anchor : i \in grp} \ {""}
+             \* keys that are Aliases of the node are the same object: they carry the new name too
+             d1 == [i \in 1..Len(d) |-> IF i \in grp THEN [d[i] EXCEPT !.anchor = name]
+                                       ELSE IF Len(KA(d[i])) > 0 THEN [d[i] EXCEPT !.kanch = [j \in 1..Len(@) |-> IF @[j] \in oldn THEN name ELSE @[j]]]
+                                       ELSE d[i]]
          IN IF ~PlainName(name) THEN skip                  \* a generated name that is no legal Anchor name (key with punctuation)
             ELSE IF e.name # "" /\ e.name \in used THEN [doc |-> d, out |-> "yperr"]
             ELSE IF rt.err # "" THEN [doc |-> NormAliases(d1), out |-> "yperr"]
@@ -194,20 +211,27 @@ EStep(s, e) ==
      ELSE IF r.err # "" THEN [doc |-> d, out |-> "yperr"]
      ELSE IF Len(r.res) = 0 THEN [doc |-> d, out |-> "unmatched"]
      ELSE IF ~AllScalars(d, ids) \/ (\E j \in 1..Len(r.res) : IsName(r.res[j])) \/ (\E j \in 1..Len(r.res) : IsVirt(r.res[j])) THEN [doc |-> d, out |-> "skip"]
-     ELSE [doc |-> SetScalars(d, SeqToSet(ids), e.t, e.v), out |-> "ok"])
+     ELSE LET nd == SetScalars(d, SeqToSet(ids), e.t, e.v)
+              \* a target that sits UNDER an aliased key, matched together with other nodes: the matches are gathered first and the
+              \* key may have been renamed by the time its value is reached (the code then fails with KeyError): outside the model
+              underAliased == \E x \in SeqToSet(ids) : d[x].par # 0 /\ KAOf(d[d[x].par], ChildPos(d, x)) # "" IN
+          IF HasAliasedKeys(d) /\ (KeyClash(nd) \/ (underAliased /\ Len(ids) > 1)) THEN [doc |-> d, out |-> "skip"] ELSE [doc |-> nd, out |-> "ok"])
   ELSE IF e.op = "delete" THEN
     (IF r.info THEN [doc |-> d, out |-> "skip"]
      ELSE IF r.err # "" THEN [doc |-> d, out |-> "yperr"]
      ELSE IF Len(r.res) = 0 THEN [doc |-> d, out |-> "ok"]
      ELSE IF (\E j \in 1..Len(r.res) : IsName(r.res[j])) THEN [doc |-> d, out |-> "skip"]
      ELSE IF Root \in SeqToSet(ids) THEN [doc |-> d, out |-> "nodoc"]
+     \* deleting the definition of an Anchor that a key is an Alias of leaves the key as the first occurrence: outside the model
+     ELSE IF HasAliasedKeys(d) /\ (\E x \in 1..Len(d) : d[x].anchor # "" /\ d[x].alias = 0 /\ (\E tg \in SeqToSet(ids) : IsUnder(d, x, tg))) THEN [doc |-> d, out |-> "skip"]
      ELSE [doc |-> DeleteNodes(d, SeqToSet(ids)), out |-> "ok"])
   ELSE IF e.op = "set_opt" THEN
     (LET c == CreatePath(d, e.segs, e.t, e.v) IN
      IF ~c.ok THEN [doc |-> d, out |-> IF c.why = "yperr" THEN "yperr" ELSE "skip"]
      ELSE IF c.existed THEN
         (IF r.info \/ ~AllScalars(d, ids) THEN [doc |-> d, out |-> "skip"]
-         ELSE [doc |-> SetScalars(d, SeqToSet(ids), e.t, e.v), out |-> "ok"])
+         ELSE LET nd == SetScalars(d, SeqToSet(ids), e.t, e.v) IN
+              IF HasAliasedKeys(d) /\ KeyClash(nd) THEN [doc |-> d, out |-> "skip"] ELSE [doc |-> nd, out |-> "ok"])
      ELSE [doc |-> c.doc, out |-> "ok"])
   ELSE IF e.op = "alias" THEN AliasStep(d, e)
   ELSE [doc |-> d, out |-> "ok"]      \* query / exists: reads never change the document (C09)
